@@ -369,9 +369,8 @@ def run(cx, out):
         check_type_info(out, facts)
         check_panics(out, facts, S)
     # derived impls: the derive corpus of C05
-    from . import c05 as _c05
-    from ..report import Out as _Out
-    _sub = _Out('C05')
-    _c05.run(cx, _sub)
+    from . import shared
     out.rule('R05.1', 'derived encoders (struct/enum layouts, index bytes) equal the layout declared by the definition (derive corpus of C05)')
-    out.absorb(_sub, {'R05.1'})
+    # premises: the derived encoders; "the produced bytes" presupposes that every entry point and every output sink
+    # produces the same bytes (C07 R07.1 entry points agree, R07.3 sinks write everything they are given)
+    shared.premises(cx, out, {'c05': {'R05.1'}, 'c07': {'R07.1', 'R07.3'}})
